@@ -11,6 +11,7 @@ ALL3 = ['C04', 'C01', 'C10']
 
 @contract(M + 'mpc_add')
 class _:
+    search = 'two_mpc_inputs'
     shapes = dict(z='mpc', w='mpc', prec='int')
     result = 'mpc'
     props = PROPS3
@@ -31,6 +32,7 @@ class _:
 
 @contract(M + 'mpc_sub')
 class _:
+    search = 'two_mpc_inputs'
     shapes = dict(z='mpc', w='mpc', prec='int')
     result = 'mpc'
     props = PROPS3
@@ -52,6 +54,7 @@ class _:
 
 @contract(M + 'mpc_add_mpf')
 class _:
+    search = 'mpc_mpf_inputs'
     """z + x for real x: the real part is the rounded sum, the imaginary part is the imaginary
     part of z rounded to the working precision (C04: "z+x (x real)" is correctly rounded per
     component; C10: no more bits than the working precision)"""
@@ -75,6 +78,7 @@ class _:
 
 @contract(M + 'mpc_sub_mpf')
 class _:
+    search = 'mpc_mpf_inputs'
     shapes = dict(z='mpc', p='mpf', prec='int')
     result = 'mpc'
     props = PROPS3
@@ -95,6 +99,7 @@ class _:
 
 @contract(M + 'mpc_pos')
 class _:
+    search = 'one_mpc_inputs'
     shapes = dict(z='mpc', prec='int')
     result = 'mpc'
     props = PROPS3
@@ -115,6 +120,7 @@ class _:
 
 @contract(M + 'mpc_neg')
 class _:
+    search = 'one_mpc_inputs'
     shapes = dict(z='mpc', prec='int')
     variants = [dict(prec=None)]
     result = 'mpc'
@@ -137,6 +143,7 @@ class _:
 
 @contract(M + 'mpc_conjugate')
 class _:
+    search = 'one_mpc_inputs'
     """the conjugate, rounded to the working precision in both components"""
     shapes = dict(z='mpc', prec='int')
     result = 'mpc'
@@ -158,6 +165,7 @@ class _:
 
 @contract(M + 'mpc_mul')
 class _:
+    search = 'two_mpc_inputs'
     shapes = dict(z='mpc', w='mpc', prec='int')
     result = 'mpc'
     props = PROPS3
@@ -182,6 +190,7 @@ class _:
 
 @contract(M + 'mpc_mul_mpf')
 class _:
+    search = 'mpc_mpf_inputs'
     shapes = dict(z='mpc', p='mpf', prec='int')
     result = 'mpc'
     props = PROPS3
@@ -202,6 +211,7 @@ class _:
 
 @contract(M + 'mpc_mul_int')
 class _:
+    search = 'mpc_int_inputs'
     shapes = dict(z='mpc', n='int', prec='int')
     result = 'mpc'
     props = PROPS3
